@@ -117,8 +117,10 @@ pub(crate) fn scan_and_apply_units<S: TexlangState>(
         if parse_keyword(input, "fil")? {
             *glue_order = common::GlueOrder::Fil;
             while let Some(token) = input.next()? {
-                match token.value() {
-                    token::Value::Letter('l' | 'L') => match glue_order.next() {
+                // As for every keyword the category code of the l is irrelevant
+                // (TeX.2021.407); control sequences and active characters have no character.
+                match token.char() {
+                    Some('l' | 'L') => match glue_order.next() {
                         None => {
                             input.error(fillll_error(token))?;
                         }
